@@ -3,7 +3,7 @@ CONSTANTS
   IncMax = 3
   TokenMod = 4
   ProbeMod = 4
-  Fixes = {"654ac52", "3f5c312", "66b62cc", "7418747", "f6702a7", "73fde95", "ea3a2f4", "6ca130a"}
+  Fixes = {"654ac52", "3f5c312", "66b62cc", "7418747", "f6702a7", "73fde95", "ea3a2f4", "6ca130a", "a23716c"}
   Keys = {1, 2, 3}
   Sizes = {3, 5}
   MaxTx = 3
